@@ -110,6 +110,35 @@ Proof.
   intros [H|H]; congruence.
 Qed.
 
+(* a write over TLS that does not succeed ends with an error no later than a deadline and no later than one poll
+   interval after it began - whatever the context does; it succeeds only if the peer took the bytes *)
+Theorem tls_write_bound poll c ev now r res :
+  0 < poll -> tls_write poll c ev now = (r, res) ->
+  now <= r <= now + poll /\
+  (forall t, c = CDeadline t -> r <= Z.max now t) /\
+  (res = WOk -> exists e, ev = Some e /\ r = Z.max now e) /\
+  (res = WCtx -> exists t, ctx_time c = Some t /\ t <= now /\ r = now).
+Proof.
+  intros Hp. unfold tls_write. destruct (ended c now) eqn:E.
+  - intros H. inversion H; subst. apply ended_spec in E. destruct E as [t [Ht Hl]].
+    split; [lia|]. split; [intros t' ->; cbn in Ht; inversion Ht; lia|]. split; [discriminate|].
+    intros _. exists t. auto.
+  - assert (Hne : forall t, ctx_time c = Some t -> now < t).
+    { intros t Ht. destruct (Z.lt_ge_cases now t) as [Hlt|Hge]; auto. exfalso.
+      assert (Hen : ended c now = true) by (apply ended_spec; exists t; split; auto; lia). congruence. }
+    set (arm := match c with CDeadline t => Z.min (now + poll) t | _ => now + poll end).
+    assert (Ha : now < arm <= now + poll /\ forall t, c = CDeadline t -> arm <= t).
+    { unfold arm. destruct c as [|t|t]; cbn; try (split; [lia|intros ? ?; discriminate]).
+      specialize (Hne t eq_refl). split; [lia|]. intros t' Heq. inversion Heq; subst. lia. }
+    destruct Ha as [Ha1 Ha2].
+    destruct ev as [e|].
+    + destruct (Z.leb_spec e arm) as [Hle|Hgt]; intros H; inversion H; subst.
+      * split; [lia|]. split; [intros t ->; specialize (Ha2 t eq_refl); lia|]. split; [intros _; exists e; auto|discriminate].
+      * split; [lia|]. split; [intros t ->; specialize (Ha2 t eq_refl); lia|]. split; discriminate.
+    + intros H; inversion H; subst.
+      split; [lia|]. split; [intros t ->; specialize (Ha2 t eq_refl); lia|]. split; discriminate.
+Qed.
+
 (* ---- every operation of the repaired code, every transport ---- *)
 Definition poll_of (k : tkind) : Z := match k with KTcp => tcp_poll | _ => 0 end.
 
